@@ -215,6 +215,11 @@ class Concretiser:
             if v and rng.random() < 0.5:
                 # mixed case (addresses are case-preserving): the canary is the part that survives any case folding
                 local, dom, tok = "Zq%dxA" % idn, dom.title().replace("Example", "EXAMPLE"), "q%dx" % idn
+            elif v and rng.random() < 0.35:
+                # e-mail SHAPED (the statement's word), as people really have them: consecutive / trailing dots in the local part (carrier
+                # addresses), apostrophes, plus tags - all inside the WHATWG syntax the judge applies to the placeholder as well
+                local = rng.choice(["zq%dx..doe", "zq%dx.", ".zq%dx", "o'zq%dx", "zq%dx+tag", "zq%dx_-.a"]) % idn
+                tok = "zq%dx" % idn
             node = ('str', local + "@" + dom)
         elif cls == "empty":
             node = ('str', "")
@@ -374,6 +379,9 @@ class Concretiser:
                 kv = []
                 for k, v in tree["o"]:
                     k2 = self.keymap.get(k, k)
+                    if k2 == "ufv" and getattr(self, "vocab_words", None):
+                        # a user field spelled like a word of the operator tables: another word for every case
+                        k2 = self.vocab_words[(self.idx * 7 + self.variant) % len(self.vocab_words)]
                     if self.fn_style and k2 in FN_KEYS:
                         k2 = self.fn_name(k2, path)
                     elif self.variant > 0 and k2 in EXOTIC_KEYS and self.exotic_keys:
@@ -408,6 +416,11 @@ class Concretiser:
         node = self.build(tree)
         # the top-level id (outside every zone) maps output lines back to cases
         kv = [(k, ('num', str(line_id)) if k == "id" else v) for k, v in node[1]]
+        if self.variant > 0 and self.rng.random() < 0.3:
+            # a log that went through a re-serialiser: same members, another order ("attr" in front of "c" / "msg")
+            kv = [e for e in kv if e[0] == "attr"] + [e for e in kv if e[0] != "attr"]
+            # (the leaves stay in document order)
+            self.leaves = [lf for lf in self.leaves if lf.path[:1] == ("attr",)] + [lf for lf in self.leaves if lf.path[:1] != ("attr",)]
         for lf in self.leaves:
             if lf.path == ("id",):
                 lf.node = ('num', str(line_id))
@@ -662,6 +675,7 @@ def process_chunk(args):
                 c.clash = bool(opts.get("clash"))
                 c.pad_arrays = bool(opts.get("pad_arrays"))
                 c.twins = bool(opts.get("twins"))
+                c.vocab_words = opts.get("vocab_words")
                 c.fn_style = bool(opts.get("fn_style"))
                 c.nsrel_by_variant = bool(opts.get("fn_style"))
                 tree = c.line(rec["in"], gid)
@@ -715,6 +729,10 @@ def process_chunk(args):
         if chunk_no == 0 and cases:
             r0 = per_case[0][cfgs[0].name]
             res["samples"].append({"input_line": r0.line[:1200], "cfg": r0.cfg.desc(), "output_line": (r0.raw or "")[:1200]})
+        if opts.get("after"):
+            # a check-specific pass over the same concretised cases (e.g. the same lines in-process after runs in other modes)
+            m_, f_ = opts["after"].split(":")
+            getattr(importlib.import_module(m_), f_)(_W, chunk_no, cases, per_case, cfgs, workdir, res)
     finally:
         import shutil
         shutil.rmtree(workdir, ignore_errors=True)
@@ -727,9 +745,9 @@ def process_chunk(args):
 class Replay:
     """Streams TLC records into a process pool; merges what the workers report into a common.Verdict."""
 
-    def __init__(self, build, verdict, cfgs, judge_name, variants=1, chunk=1500, keymap=None, styles=None, drift=True, worker=None, ns_style=False, fn_style=False, clash=False, pad_arrays=False, twins=False):
+    def __init__(self, build, verdict, cfgs, judge_name, variants=1, chunk=1500, keymap=None, styles=None, drift=True, worker=None, ns_style=False, fn_style=False, clash=False, pad_arrays=False, twins=False, after=None, vocab_words=None):
         self.b, self.v, self.cfgs = build, verdict, cfgs
-        self.opts = {"seed": verdict.seed, "variants": variants, "keymap": keymap, "styles": styles, "drift": drift, "ns_style": ns_style, "fn_style": fn_style, "clash": clash, "pad_arrays": pad_arrays, "twins": twins}
+        self.opts = {"after": after, "vocab_words": vocab_words, "seed": verdict.seed, "variants": variants, "keymap": keymap, "styles": styles, "drift": drift, "ns_style": ns_style, "fn_style": fn_style, "clash": clash, "pad_arrays": pad_arrays, "twins": twins}
         self.pool = multiprocessing.get_context("fork").Pool(
             common.NCPU, initializer=_worker_init,
             initargs=({"cli": build.cli, "root": build.root, "inproc": build.inproc}, cfgs, judge_name, self.opts))
@@ -813,11 +831,14 @@ def add_violation(res, sig, r, detail=None):
 
 def generate(module, cfgfile, cfgs, defines, sink, timeout=1500, simulate=None, depth=None, seed=None):
     d = {"Cfgs": cfgs_tla(cfgs), "TWTables": "{}", "TWShapeKinds": "{}", "EWDamaged": "FALSE", "FreeDepth": "1", "FreeKeys": "{}", "FreeSlots": "{}",
-         "GMDepth": "4", "GMWide": "1", "GMMaxFld": "2", "GMMaxArr": "2", "GMTail": "2", "GMShallow": "2", "GMSeeds": "<< >>", "GMSlots": "{}", "GMFields": '{"uf1"}',
+         "GMDepth": "4", "GMWide": "1", "GMMaxFld": "2", "GMMaxArr": "2", "GMTail": "2", "GMShallow": "2", "GMSeeds": "<< >>", "GMSlots": "{}", "GMFields": '{"uf1"}', "GMBelow": "{}",
          "GMKinds": '{"plain", "email", "num", "bool", "dollar", "date", "oid", "b64", "nsname", "null", "empty"}'}
     d.update(defines or {})
-    return common.run_tlc(module, cfgfile, defines=d, sink=sink, want_records=False, timeout=timeout,
-                          simulate=simulate, depth=depth, seed=seed)
+    t = common.run_tlc(module, cfgfile, defines=d, sink=sink, want_records=False, timeout=timeout,
+                       simulate=simulate, depth=depth, seed=seed)
+    if os.environ.get("VERIF_TIMING"):
+        sys.stderr.write("TIMING %s distinct=%s wall=%.1fs\n" % (module, t.distinct, t.wall))
+    return t
 
 
 # ------------------------------------------------------------------ zones (judge-side, from the property statements)
@@ -942,7 +963,7 @@ CONTEXTS = [
 
 
 def grammar_seeds(dump, field="uf1", slots=("filter", "update", "updates", "deletes", "documents", "pipeline", "sort"),
-                  contexts=None, extra_depth=3):
+                  contexts=None, extra_depth=3, field_after_every_edge=False):
     """One shortest key path through every edge of the grammar (key edges, the user-field edge and the array edge of
     every nonterminal): shortest prefix from a command slot + the edge + shortest completion to a nonterminal that
     admits a scalar.  Returned as the TLA+ text of the constant GMSeeds; RedactorGM validates each against G."""
@@ -1024,6 +1045,9 @@ def grammar_seeds(dump, field="uf1", slots=("filter", "update", "updates", "dele
                 for k2, ch2 in succ.get(ch, []):
                     if k2 == "[]" and k != "[]" and ch2 in comp:
                         seeds.add((s, tuple(ctx + local[x] + [k, "[]"] + comp[ch2])))
+                    # (C14) a user field directly below EVERY edge of the context, not only below the first path that reaches its nonterminal
+                    if field_after_every_edge and k2 == field and ch2 in comp:
+                        seeds.add((s, tuple(ctx + local[x] + [k, field] + comp[ch2])))
                 if ch not in local:
                     local[ch] = local[x] + [k]
                     q.append(ch)
